@@ -33,6 +33,8 @@ type BridgeCfg struct {
 	MevVals map[int]bool
 	// NoFeeVals: validators that never register a relayer fee.
 	NoFeeVals map[int]bool
+	// NoFeeChains: chains for which no validator registers a relayer fee (the chain never gets a relayer).
+	NoFeeChains map[string]bool
 	// NoChainVals: validators that never register external accounts.
 	NoChainVals map[int]bool
 	CommunityFee string
@@ -149,7 +151,7 @@ func (b *Bridge) Bootstrap(maxBlocks int) bool {
 	for i := 0; i < maxBlocks && !b.Aborted; i++ {
 		all := true
 		for _, id := range b.Order {
-			if !b.ChainActive(id) {
+			if !b.BCfg.NoFeeChains[id] && !b.ChainActive(id) {
 				all = false
 			}
 		}
